@@ -186,6 +186,29 @@ def build():
     elif bm.startswith(rest): defs.append(("formerr_plain_response", "bool", "false"))
     else: raise GenError("ServerError::build_message: unrecognised shape of the unsigned arm")
 
+    # ---- net/client/tsig.rs Request::validate_response: every response goes through TsigClient::answer,
+    #      the end of a stream through TsigClient::done
+    cw = strip_comments(read("src/net/client/tsig.rs"))
+    vr = re.sub(r"\s+", "", fn_body(cw, "validate_response", after="async fn get_response_impl"))
+    vr = re.sub(r"trace!\(\"[^\"]*\"\);", "", vr)
+    want_vr = ("letres=matchresponse{None=>{letclient=tsig_client.lock().unwrap().take().unwrap();client.done()?;None}"
+               "Some(msg)=>{letmutmodifiable_msg=Message::from_octets(msg.as_slice().to_vec())?;"
+               "ifletSome(client)=tsig_client.lock().unwrap().deref_mut(){client.answer(&mutmodifiable_msg,Time48::now())?;}"
+               "letout_vec=modifiable_msg.into_octets();letout_bytes=Bytes::from(out_vec);"
+               "letout_msg=Message::<Bytes>::from_octets(out_bytes)?;Some(out_msg)}};Ok(res)")
+    if vr != want_vr:
+        raise GenError("net/client/tsig.rs validate_response: unrecognised shape (every response must pass TsigClient::answer, stream end TsigClient::done)")
+    ta = re.sub(r"\s+", "", fn_body(cw, "answer", after="impl<K> TsigClient<K>"))
+    if ta != "matchself{TsigClient::Transaction(client)=>client.answer(message,now),TsigClient::Sequence(client)=>client.answer(message,now),}.map_err(Error::Authentication)":
+        raise GenError("net/client/tsig.rs TsigClient::answer: unrecognised shape")
+    td = re.sub(r"\s+", "", fn_body(cw, "done", after="impl<K> TsigClient<K>"))
+    if td != "matchself{TsigClient::Transaction(_)=>{Ok(())}TsigClient::Sequence(client)=>{client.done().map_err(Error::Authentication)}}":
+        raise GenError("net/client/tsig.rs TsigClient::done: unrecognised shape")
+    gi = re.sub(r"\s+", "", fn_body(cw, "get_response_impl", after="fn new_multi"))
+    if "letres=Self::validate_response(response,tsig_client)?;" not in gi:
+        raise GenError("net/client/tsig.rs get_response_impl no longer validates every response")
+    defs.append(("client_wrapper_validates_all", "bool", "true"))
+
     # ---- ServerSequence: which MAC goes back into the context
     sa = re.sub(r"\s+", "", fn_body(src, "answer_with_fudge", after="impl<K: AsRef<Key>> ServerSequence<K>"))
     if "self.context.apply_signature(mac.as_ref());letmac=self.key().signature_slice(&mac);" in sa:
